@@ -9,6 +9,8 @@ UNIT_MODES = {
     'powlog': ['dbg', 'rel'],
     'div': ['dbg', 'rel'],
     'mul': ['dbg', 'rel'],
+    'bits': ['dbg', 'rel'],
+    'shift_ops': ['dbg', 'rel'],
 }
 
 # property -> verus units owned by the property (dependencies are added automatically) and the
